@@ -5,7 +5,12 @@ From HV Require Import Base.Prelude Base.Outcome.
 Definition blen (bs : list N) : N := N.of_nat (length bs).
 
 (* [byte] is a definition for N; make lengths of both spellings one atom before calling lia *)
-Ltac bnorm := change byte with N in *.
+Ltac bnorm := unfold bytes in *; change byte with N in *.
+(* rewrite with a lemma instance after bringing it and the goal to the same spelling *)
+Tactic Notation "brewrite" constr(t) :=
+  let Q := fresh "Q" in pose proof t as Q; bnorm; rewrite Q; clear Q.
+Tactic Notation "brewrite" constr(t) "by" tactic(tac) :=
+  let Q := fresh "Q" in pose proof t as Q; bnorm; rewrite Q by tac; clear Q.
 Ltac blia := bnorm; lia.
 
 Definition be (n : nat) (v : N) : bytes := rev (le n v).
@@ -45,9 +50,9 @@ Definition find0 (bs : bytes) (from : N) : N := find0_aux (skipn (N.to_nat from)
 
 (* ------------------------------------------------------------------ lemmas *)
 
-Lemma blen_app a b : blen (a ++ b) = blen a + blen b.
+Lemma blen_app (a b : list N) : blen (a ++ b) = blen a + blen b.
 Proof. unfold blen. rewrite app_length. blia. Qed.
-Lemma blen_cons x a : blen (x :: a) = 1 + blen a.
+Lemma blen_cons (x : N) (a : list N) : blen (x :: a) = 1 + blen a.
 Proof. unfold blen. cbn [length]. blia. Qed.
 Lemma blen_nil : blen [] = 0.
 Proof. reflexivity. Qed.
@@ -89,10 +94,10 @@ Proof.
   assert (v mod 256 < 256) by (apply N.mod_lt; blia).
   apply andb_true_iff; split; auto. apply N.ltb_lt; auto.
 Qed.
-Lemma bytes_ok_app a b : bytes_ok (a ++ b) = bytes_ok a && bytes_ok b.
+Lemma bytes_ok_app (a b : list N) : bytes_ok (a ++ b) = bytes_ok a && bytes_ok b.
 Proof. apply forallb_app. Qed.
 
-Lemma slice_app pre mid suf :
+Lemma slice_app (pre mid suf : list N) :
   slice (pre ++ mid ++ suf) (blen pre) (blen pre + blen mid) = Ok mid.
 Proof.
   unfold slice. rewrite !blen_app. bnorm.
@@ -106,14 +111,14 @@ Proof.
   rewrite firstn_app_2. cbn [firstn]. apply app_nil_r.
 Qed.
 (* variants with the offsets given as numbers *)
-Lemma slice_app' pre mid suf a b :
+Lemma slice_app' (pre mid suf : list N) a b :
   a = blen pre -> b = a + blen mid -> slice (pre ++ mid ++ suf) a b = Ok mid.
 Proof. intros -> ->. apply slice_app. Qed.
-Lemma slice_app_end pre mid a b :
+Lemma slice_app_end (pre mid : list N) a b :
   a = blen pre -> b = a + blen mid -> slice (pre ++ mid) a b = Ok mid.
 Proof. intros. rewrite <- (app_nil_r mid) at 1. apply slice_app'; auto. Qed.
 
-Lemma slice_from_app pre suf a : a = blen pre -> slice_from (pre ++ suf) a = Ok suf.
+Lemma slice_from_app (pre suf : list N) a : a = blen pre -> slice_from (pre ++ suf) a = Ok suf.
 Proof.
   intros ->. unfold slice_from. rewrite blen_app.
   replace (blen pre <=? blen pre + blen suf) with true by (symmetry; apply N.leb_le; blia).
@@ -123,22 +128,22 @@ Proof.
   replace (length pre + 0 - length pre)%nat with 0%nat by blia. reflexivity.
 Qed.
 
-Lemma index_app pre b suf i : i = blen pre -> index (pre ++ b :: suf) i = Ok b.
+Lemma index_app (pre : list N) (b : N) (suf : list N) i : i = blen pre -> index (pre ++ b :: suf) i = Ok b.
 Proof.
   intros ->. unfold index, blen. rewrite Nat2N.id.
   rewrite nth_error_app2 by blia. replace (length pre - length pre)%nat with 0%nat by blia. reflexivity.
 Qed.
 
-Lemma index0 a l : index (a :: l) 0 = Ok a.
+Lemma index0 (a : N) (l : list N) : index (a :: l) 0 = Ok a.
 Proof. reflexivity. Qed.
-Lemma index1 a b l : index (a :: b :: l) 1 = Ok b.
+Lemma index1 (a b : N) (l : list N) : index (a :: b :: l) 1 = Ok b.
 Proof. reflexivity. Qed.
-Lemma index2 a b c l : index (a :: b :: c :: l) 2 = Ok c.
+Lemma index2 (a b c : N) (l : list N) : index (a :: b :: c :: l) 2 = Ok c.
 Proof. reflexivity. Qed.
-Lemma index3 a b c d l : index (a :: b :: c :: d :: l) 3 = Ok d.
+Lemma index3 (a b c d : N) (l : list N) : index (a :: b :: c :: d :: l) 3 = Ok d.
 Proof. reflexivity. Qed.
 
-Lemma rd_le_app pre suf off k v :
+Lemma rd_le_app (pre suf : list N) off k v :
   off = blen pre -> v < 256 ^ N.of_nat k ->
   rd_le (pre ++ le k v ++ suf) off (N.of_nat k) = Ok v.
 Proof.
@@ -146,7 +151,7 @@ Proof.
   - cbn [obind]. now rewrite unle_le_small.
   - now rewrite blen_le.
 Qed.
-Lemma rd_be_app pre suf off k v :
+Lemma rd_be_app (pre suf : list N) off k v :
   off = blen pre -> v < 256 ^ N.of_nat k ->
   rd_be (pre ++ be k v ++ suf) off (N.of_nat k) = Ok v.
 Proof.
@@ -156,22 +161,22 @@ Proof.
 Qed.
 
 (* the same with the width given as a number (so that literals match syntactically) *)
-Lemma rd_le_at pre k kN v suf off :
+Lemma rd_le_at (pre : list N) k kN v (suf : list N) off :
   off = blen pre -> kN = N.of_nat k -> v < 256 ^ kN ->
   rd_le (pre ++ le k v ++ suf) off kN = Ok v.
 Proof. intros -> -> Hv. apply rd_le_app; auto. Qed.
-Lemma rd_le_head k kN v suf :
+Lemma rd_le_head k kN v (suf : list N) :
   kN = N.of_nat k -> v < 256 ^ kN -> rd_le (le k v ++ suf) 0 kN = Ok v.
 Proof. intros. apply (rd_le_at [] k kN v suf 0); auto. Qed.
-Lemma rd_be_at pre k kN v suf off :
+Lemma rd_be_at (pre : list N) k kN v (suf : list N) off :
   off = blen pre -> kN = N.of_nat k -> v < 256 ^ kN ->
   rd_be (pre ++ be k v ++ suf) off kN = Ok v.
 Proof. intros -> -> Hv. apply rd_be_app; auto. Qed.
-Lemma rd_be_head k kN v suf :
+Lemma rd_be_head k kN v (suf : list N) :
   kN = N.of_nat k -> v < 256 ^ kN -> rd_be (be k v ++ suf) 0 kN = Ok v.
 Proof. intros. apply (rd_be_at [] k kN v suf 0); auto. Qed.
 
-Lemma find0_aux_app name suf pos :
+Lemma find0_aux_app (name suf : list N) pos :
   forallb (fun b => negb (b =? 0)) name = true ->
   find0_aux (name ++ 0 :: suf) pos = pos + blen name.
 Proof.
@@ -181,7 +186,7 @@ Proof.
     cbn [app find0_aux]. destruct (b =? 0); [discriminate|].
     rewrite IH by auto. rewrite blen_cons. blia.
 Qed.
-Lemma find0_app pre name suf from :
+Lemma find0_app (pre name suf : list N) from :
   from = blen pre -> forallb (fun b => negb (b =? 0)) name = true ->
   find0 (pre ++ name ++ 0 :: suf) from = from + blen name.
 Proof.
